@@ -88,11 +88,13 @@ NumTables == <<
   <<"", "", "0.1667", "", "0.3333", "", "", "", "0.6667", "", "0.8333", "">>,
   <<"", "0.08333", "0.16667", "0.250", "0.33333", "0.41667", "0.500", "0.58333", "0.66667", "0.750", "0.83333", "0.91667">> >>
 Numeral(k, num) == IF NumTables[num][k+1] = "" THEN FracText[k+1] ELSE NumTables[num][k+1]
+(* the same translation written as a negative fraction: k/12 = -(12-k)/12 modulo the lattice, e.g. 3/4 as "-1/4" *)
+NegNumeral(k) == "-" \o FracText[(12 - k) + 1]
 
 Perms3 == <<<<1,2,3>>, <<1,3,2>>, <<2,1,3>>, <<2,3,1>>, <<3,1,2>>, <<3,2,1>>>>
 UpperName == <<"X", "Y", "Z">>
 Letter(j, up) == IF up THEN UpperName[j] ELSE AxisName[j]
-StyleSet == [pi : 1..6, up : BOOLEAN, dp : BOOLEAN, num : 1..5, layout : 1..4]
+StyleSet == [pi : 1..6, up : BOOLEAN, dp : BOOLEAN, num : 1..6, layout : 1..4]     \* num = 6: negative fraction
 
 (* the axis terms in permuted order; the first printed one may lose its '+' *)
 TermsText(row, st, keepSigns) ==
@@ -105,11 +107,14 @@ TermsText(row, st, keepSigns) ==
 
 RowSpelling(row, k, st) ==
   IF k = 0 THEN (IF st.layout >= 3 THEN " " \o TermsText(row, st, FALSE) \o " " ELSE TermsText(row, st, FALSE))
-  ELSE LET n == Numeral(k, st.num) IN
+  ELSE LET neg == st.num = 6
+           n == IF neg THEN NegNumeral(k) ELSE Numeral(k, st.num)
+           plus == IF neg THEN "" ELSE "+"                      \* "x-1/4", not "x+-1/4"
+       IN
        CASE st.layout = 1 -> n \o TermsText(row, st, TRUE)
-         [] st.layout = 2 -> TermsText(row, st, FALSE) \o "+" \o n
+         [] st.layout = 2 -> TermsText(row, st, FALSE) \o plus \o n
          [] st.layout = 3 -> n \o " " \o TermsText(row, st, TRUE)
-         [] st.layout = 4 -> TermsText(row, st, FALSE) \o " + " \o n
+         [] st.layout = 4 -> TermsText(row, st, FALSE) \o (IF neg THEN " - " \o FracText[(12 - k) + 1] ELSE " + " \o n)
 
 Spelling(op, styles, sep) ==
   RowSpelling(op.r[1], op.t[1] % 12, styles[1]) \o sep \o
